@@ -2,10 +2,12 @@
 import itertools
 import json
 import os
+import subprocess
+import sys
 import tempfile
 
 from .. import impl
-from ..common import exc_name, has_unmodelled
+from ..common import VERIF, exc_name, has_unmodelled
 from ..runner import Outcome
 
 LEVEL = "proof"
@@ -176,6 +178,148 @@ def should_reject(defs):
     return None
 
 
+def brief(res):
+    return res if "exc" in res else [s["annotation"] + ":" + ",".join(s["names"]) for s in res["schemes"]]
+
+
+def differs(m, r):
+    """Where a model outcome differs from the implementation's (for the printed account)."""
+    if brief(m) != brief(r) or "exc" in m:
+        return brief(m)
+    return "same layouts, class chains differ: " + "; ".join(
+        "%s.%s model %s implementation %s" % (a["annotation"], n, x, y)
+        for a, b in zip(m["schemes"], r["schemes"]) for n, x, y in zip(a["names"], a["mros"], b["mros"]) if x != y)
+
+
+def eval_forest(defs, defect, orders):
+    """One set of definitions loaded in each of `orders` (permutations of range(len(defs))) on the implementation + the
+    property's oracle.  Returns (results = [(order, canonical outcome)], failures, why = reason the definitions have to be
+    rejected or None)."""
+    results = []
+    for od in orders:
+        ordered = [defs[k] for k in od]
+        results.append((tuple(od), canon(build_impl(ordered))))
+    failures = []
+    where = {"defs": defs, "injected": defect, "tried": [list(od) for od, _r in results]}
+    first = results[0][1]
+    diff = [od for od, r in results if r != first]
+    if diff:
+        other = [r for od, r in results if od == diff[0]][0]
+        failures.append(dict(where, what="the outcome depends on the order in which definitions are loaded", kind="order-dependent",
+                             orders=[list(results[0][0]), list(diff[0])],
+                             outcomes=[brief(first), brief(other)]))
+        return results, failures, None
+    why = should_reject(defs)
+    if why:
+        if "exc" not in first:
+            failures.append(dict(where, what="definitions with %s were not rejected" % why, kind="not-rejected"))
+        elif first["exc"] != "ValueError":
+            failures.append(dict(where, what="rejected with %s instead of ValueError" % first["exc"], kind="wrong-error"))
+    else:
+        if "exc" in first:
+            failures.append(dict(where, what="well-formed definitions were rejected (%s)" % first["exc"], kind="false-reject"))
+        else:
+            for s in first["schemes"]:
+                want = expected_layout(defs, s["annotation"])
+                if s["names"] != want:
+                    failures.append(dict(where, what="layout of %s is not 'base layout without filtered columns, then new columns'" % s["annotation"],
+                                         kind="layout", expected=want, got=s["names"]))
+                    break
+                # every constraint given to a column along the inheritance path is still enforced: each class of the
+                # chain is in the MRO of the resolved class, the most recent redefinition first
+                for n, mro in zip(s["names"], s["mros"]):
+                    chain = type_chain(defs, s["annotation"], n)
+                    if any(t not in mro for t in chain):
+                        failures.append(dict(where, what="column %s of %s lost a constraint of its inheritance chain %s" % (n, s["annotation"], chain),
+                                             kind="override-lost", got=mro))
+                        break
+                # a redefined column keeps the inherited class behind the added one
+                for n, mro in zip(s["names"], s["mros"]):
+                    d = [x for x in defs if x["annotation"] == s["annotation"]][0]
+                    own = dict(d["columns"])
+                    if d["extends"] and n in own and n in (expected_layout(defs, d["extends"]) or []):
+                        if len(mro) < 3 or mro[1] != own[n]:
+                            failures.append(dict(where, what="redefined column %s does not put the added class in front of the inherited one" % n,
+                                                 kind="override", got=mro))
+                            break
+            if len(set(s["annotation"] for s in first["schemes"])) != len(defs):
+                failures.append(dict(where, what="not every definition resolves to exactly one scheme", kind="missing-scheme"))
+    return results, failures, why
+
+
+# The library builds classes while it resolves definitions; a change that keeps state between builds (a cache of
+# synthesised classes, say) makes the outcome for one forest depend on the forests built earlier in the same process.
+# `run` therefore remembers what it built, in order; `shrink` finds out, in fresh interpreters, whether the reported
+# forest fails on its own and otherwise which earlier builds it needs (stored as `prelude`, rebuilt first by replay_case).
+HISTORY = []
+
+
+def _isolated(payload):
+    """Entry point of the fresh interpreter: build the prelude, then the case; print the case's failures."""
+    for p in payload["prelude"]:
+        eval_forest(p["defs"], None, [tuple(od) for od in p["tried"]])
+    c = payload["case"]
+    _r, failures, _w = eval_forest(c["defs"], c.get("injected"), [tuple(od) for od in c["tried"]])
+    print("ISOLATED " + json.dumps([f["kind"] for f in failures]))
+
+
+def fails_in_fresh_process(prelude, case, kind):
+    code = "import sys, json; sys.path.insert(0, %r); from verif.props import c14; c14._isolated(json.load(sys.stdin))" % VERIF
+    try:
+        p = subprocess.run([sys.executable, "-W", "ignore", "-c", code], input=json.dumps({"prelude": prelude, "case": case}), cwd=VERIF,
+                           stdout=subprocess.PIPE, stderr=subprocess.DEVNULL, text=True, timeout=900)
+    except subprocess.TimeoutExpired:
+        return False
+    for line in p.stdout.splitlines():
+        if line.startswith("ISOLATED "):
+            return kind in json.loads(line[len("ISOLATED "):])
+    return False
+
+
+def ddmin(items, test, budget):
+    """Delta debugging: a small sublist of `items` (order kept) on which `test` still holds; at most `budget` tests."""
+    n = 2
+    while len(items) >= 2 and budget > 0:
+        size = -(-len(items) // n)
+        parts = [items[k:k + size] for k in range(0, len(items), size)]
+        cands = [(part, 2) for part in parts]
+        if len(parts) > 2:
+            cands += [([x for j, q in enumerate(parts) if j != k for x in q], max(n - 1, 2)) for k in range(len(parts))]
+        for cand, nn in cands:
+            if budget <= 0:
+                break
+            budget -= 1
+            if test(cand):
+                items, n = cand, nn
+                break
+        else:
+            if n >= len(items):
+                break
+            n = min(len(items), n * 2)
+    return items
+
+
+def shrink(ctx, f):
+    """Make the reported failure reproducible from its own content: when the forest does not fail in a fresh interpreter,
+    add the (minimised) list of earlier builds of this run that it depends on."""
+    seq = f.get("seq")
+    if "defs" not in f or "tried" not in f or seq is None or seq >= len(HISTORY) or HISTORY[seq]["defs"] != f["defs"]:
+        return f
+    case = {"defs": f["defs"], "injected": f.get("injected"), "tried": f["tried"]}
+    kind = f["kind"]
+    if fails_in_fresh_process([], case, kind):
+        return f
+    one = [{"defs": h["defs"], "tried": h["tried"][:1]} for h in HISTORY[:seq]]
+    if fails_in_fresh_process(one, case, kind):
+        prelude = one
+    elif fails_in_fresh_process(HISTORY[:seq], case, kind):
+        prelude = HISTORY[:seq]
+    else:
+        return dict(f, note="not reproduced in a fresh interpreter, neither alone nor after the %d earlier forests of the run" % seq)
+    prelude = ddmin(prelude, lambda sub: fails_in_fresh_process(sub, case, kind), 60)
+    return dict(f, prelude=prelude, shrunk_from=seq)
+
+
 def run(ctx):
     out = Outcome()
     out.rule = ("random inheritance forests of 1-6 definitions (overrides with RequireNullValue and other types, filters, new columns) with injected defects (unknown base, cycle, unknown type, "
@@ -183,65 +327,26 @@ def run(ctx):
                 "non-trivial = forest with inheritance; distinct forests")
     rng = ctx.rng("c14")
     reqs, impls = [], []
+    del HISTORY[:]
     for _ in range(ctx.scale(150, 1500)):
         defs, defect = gen_forest(rng)
         orders = list(itertools.permutations(range(len(defs)))) if len(defs) <= 4 else [tuple(rng.sample(range(len(defs)), len(defs))) for _ in range(8)]
         rng.shuffle(orders)
         orders = orders[:ctx.scale(4, 24)]
-        results = []
-        for od in orders:
+        results, failures, why = eval_forest(defs, defect, orders)
+        for f in failures:
+            f["seq"] = len(HISTORY)         # ordinal of this forest in the run (see shrink)
+        HISTORY.append({"defs": defs, "tried": [list(od) for od in orders]})
+        for od, res in results:
             out.evaluations += 1
-            ordered = [defs[k] for k in od]
-            res = build_impl(ordered)
-            results.append((od, canon(res)))
-            reqs.append({"op": "schemes.build", "defs": ordered})
-            impls.append(canon(res))
-        where = {"defs": defs, "injected": defect}
-        first = results[0][1]
-        diff = [od for od, r in results if r != first]
-        if diff:
-            out.failures.append(dict(where, what="the outcome depends on the order in which definitions are loaded", kind="order-dependent",
-                                     orders=[list(results[0][0]), list(diff[0])],
-                                     outcomes=[first if "exc" in first else [s["annotation"] + ":" + ",".join(s["names"]) for s in first["schemes"]],
-                                               [r for od, r in results if od == diff[0]][0] if "exc" in [r for od, r in results if od == diff[0]][0]
-                                               else [s["annotation"] + ":" + ",".join(s["names"]) for s in [r for od, r in results if od == diff[0]][0]["schemes"]]]))
+            reqs.append({"op": "schemes.build", "defs": [defs[k] for k in od]})
+            impls.append(res)
+        out.failures += failures
+        if failures and failures[0]["kind"] == "order-dependent":
             continue
-        why = should_reject(defs)
         if why:
-            if "exc" not in first:
-                out.failures.append(dict(where, what="definitions with %s were not rejected" % why, kind="not-rejected"))
-            elif first["exc"] != "ValueError":
-                out.failures.append(dict(where, what="rejected with %s instead of ValueError" % first["exc"], kind="wrong-error"))
             out.distribution["rejected:" + why] += 1
         else:
-            if "exc" in first:
-                out.failures.append(dict(where, what="well-formed definitions were rejected (%s)" % first["exc"], kind="false-reject"))
-            else:
-                for s in first["schemes"]:
-                    want = expected_layout(defs, s["annotation"])
-                    if s["names"] != want:
-                        out.failures.append(dict(where, what="layout of %s is not 'base layout without filtered columns, then new columns'" % s["annotation"],
-                                                 kind="layout", expected=want, got=s["names"]))
-                        break
-                    # every constraint given to a column along the inheritance path is still enforced: each class of the
-                    # chain is in the MRO of the resolved class, the most recent redefinition first
-                    for n, mro in zip(s["names"], s["mros"]):
-                        chain = type_chain(defs, s["annotation"], n)
-                        if any(t not in mro for t in chain):
-                            out.failures.append(dict(where, what="column %s of %s lost a constraint of its inheritance chain %s" % (n, s["annotation"], chain),
-                                                     kind="override-lost", got=mro))
-                            break
-                    # a redefined column keeps the inherited class behind the added one
-                    for n, mro in zip(s["names"], s["mros"]):
-                        d = [x for x in defs if x["annotation"] == s["annotation"]][0]
-                        own = dict(d["columns"])
-                        if d["extends"] and n in own and n in (expected_layout(defs, d["extends"]) or []):
-                            if len(mro) < 3 or mro[1] != own[n]:
-                                out.failures.append(dict(where, what="redefined column %s does not put the added class in front of the inherited one" % n,
-                                                         kind="override", got=mro))
-                                break
-                if len(set(s["annotation"] for s in first["schemes"])) != len(defs):
-                    out.failures.append(dict(where, what="not every definition resolves to exactly one scheme", kind="missing-scheme"))
             out.distribution["accepted"] += 1
         if any(d["extends"] for d in defs):
             out.nontrivial.add(json.dumps(defs, sort_keys=True))
@@ -254,31 +359,107 @@ def run(ctx):
         if has_unmodelled(m):
             out.unmodelled += 1
         elif m != i:
-            out.disagreements.append({"op": "schemes.build", "defs": r["defs"],
-                                      "model": m if "exc" in m else [s["annotation"] + ":" + ",".join(s["names"]) for s in m["schemes"]],
-                                      "impl": i if "exc" in i else [s["annotation"] + ":" + ",".join(s["names"]) for s in i["schemes"]]})
+            out.disagreements.append({"op": "schemes.build", "defs": r["defs"], "model": brief(m), "impl": brief(i)})
     return out
+
+
+def resolve_shipped(od):
+    from maflib.column_types import get_column_types
+    from maflib.scheme_factory import build_schemes, load_all_scheme_data
+    schemes = build_schemes(load_all_scheme_data(od, get_column_types()))
+    return {a: (c.version(), c().column_names(), [[k.__name__ for k in c().column_class(n).__mro__] for n in c().column_names()])
+            for a, c in schemes.items()}
+
+
+def eval_shipped(ref_order, od, ref=None):
+    """The shipped definition files loaded in order `od` resolve as they do in `ref_order` (`ref`: that resolution, when
+    the caller has it already).  Returns (failures, differing annotations)."""
+    if ref is None:
+        ref = resolve_shipped(ref_order)
+    res = ref if list(od) == list(ref_order) else resolve_shipped(od)
+    if res != ref:
+        return [{"what": "the shipped definitions resolve differently in another directory order", "kind": "order-dependent-shipped",
+                 "order": [os.path.basename(f) for f in od], "reference_order": [os.path.basename(f) for f in ref_order]}], \
+            sorted(a for a in set(ref) | set(res) if ref.get(a) != res.get(a))
+    return [], []
 
 
 def shipped_orders(ctx, out, rng):
     """The 14 shipped definitions in random directory-listing orders."""
-    from maflib.column_types import get_column_types
-    from maflib.scheme_factory import build_schemes, get_built_in_filenames, load_all_scheme_data
+    from maflib.scheme_factory import get_built_in_filenames
     files = sorted(get_built_in_filenames())
-    ref = None
+    ref_order = ref = None
     for _ in range(ctx.scale(6, 60)):
         out.evaluations += 1
         od = list(files)
         rng.shuffle(od)
-        schemes = build_schemes(load_all_scheme_data(od, get_column_types()))
-        res = {a: (c.version(), c().column_names(), [[k.__name__ for k in c().column_class(n).__mro__] for n in c().column_names()])
-               for a, c in schemes.items()}
-        if ref is None:
-            ref = res
-        elif res != ref:
-            out.failures.append({"what": "the shipped definitions resolve differently in another directory order", "kind": "order-dependent-shipped",
-                                 "order": [os.path.basename(f) for f in od]})
+        if ref_order is None:
+            ref_order, ref = od, resolve_shipped(od)
+        failures, _diff = eval_shipped(ref_order, od, ref)
+        out.failures += failures
     out.nontrivial.add("shipped")
+
+
+def replay_case(ctx, failure):
+    """Re-evaluate the stored definitions (in the stored loading orders) on the current implementation; the failures they
+    produce now ([] = property holds)."""
+    if failure.get("kind") == "order-dependent-shipped":
+        from maflib.scheme_factory import get_built_in_filenames
+        files = {os.path.basename(f): f for f in get_built_in_filenames()}
+        names = failure.get("order")
+        if not isinstance(names, list) or sorted(names) != sorted(files):
+            return None                     # not the set of definition files shipped now
+        ref_names = failure.get("reference_order") or sorted(files)
+        if sorted(ref_names) != sorted(files):
+            return None
+        print("replay C14: the %d shipped definition files loaded in the order %s and in the reference order %s" % (len(names), names, ref_names))
+        failures, differing = eval_shipped([files[n] for n in ref_names], [files[n] for n in names])
+        print("  implementation: %s" % ("schemes %s resolve differently" % differing if failures else "both orders resolve to the same schemes"))
+        for f in failures:
+            print("  oracle: %s" % f["what"])
+        return failures
+    defs = failure.get("defs")
+    if not isinstance(defs, list) or not defs:
+        return None
+    n = len(defs)
+    orders = failure.get("tried")
+    if orders is None:
+        # written before the loading orders were stored: the two orders of an order-dependence, otherwise every order
+        if n > 6:
+            return None
+        orders = failure.get("orders") if failure.get("kind") == "order-dependent" and failure.get("orders") else list(itertools.permutations(range(n)))
+    if any(sorted(od) != list(range(n)) for od in orders):
+        return None
+    print("replay C14: load_all_scheme_data + build_schemes + validate_schemes on %d definition(s)%s, in %d loading order(s)" % (
+        n, " (injected defect: %s)" % failure["injected"] if failure.get("injected") else "", len(orders)))
+    for k, d in enumerate(defs):
+        print("  def %d: %s (version %s) extends %s, filtered %s, columns %s" % (k, d["annotation"], d["version"], d["extends"], d["filtered"], d["columns"]))
+    prelude = failure.get("prelude") or []
+    if prelude:
+        print("  the stored failure depends on state left by earlier builds in the same process: building %d earlier definition set(s) first" % len(prelude))
+        for p in prelude:
+            print("    earlier: %s in order(s) %s" % (["%s<-%s %s" % (d["annotation"], d["extends"], d["columns"]) for d in p["defs"]], p["tried"]))
+            eval_forest(p["defs"], None, [tuple(od) for od in p["tried"]])
+    results, failures, why = eval_forest(defs, failure.get("injected"), [tuple(od) for od in orders])
+    models = None
+    if getattr(ctx, "driver_ok", True) and ctx.driver.available():
+        models = [canon(m) for m in ctx.driver.run([{"op": "schemes.build", "defs": [defs[k] for k in od]} for od, _r in results])]
+    shown = 0
+    for k, (od, r) in enumerate(results):
+        if shown < 6 or r != results[0][1]:
+            shown += 1
+            line = "  order %s: implementation %s" % (list(od), brief(r))
+            if models is not None:
+                m = models[k]
+                line += "; model %s" % ("outside its domain" if has_unmodelled(m) else "the same" if m == r else "DIFFERS: %s" % differs(m, r))
+            print(line)
+    if len(results) > shown:
+        print("  (%d more orders with the same outcome as the first)" % (len(results) - shown))
+    print("  expected: %s" % ("rejection with ValueError (%s)" % why if why else "the same outcome in every order" if failures and failures[0]["kind"] == "order-dependent"
+                              else "accepted, layouts %s" % ["%s:%s" % (d["annotation"], ",".join(expected_layout(defs, d["annotation"]) or [])) for d in defs]))
+    for f in failures:
+        print("  oracle: %s" % f["what"])
+    return failures
 
 
 def search(ctx):
